@@ -237,7 +237,24 @@ def counts_case(p, res):
                 b.update(x, y)
                 if (int(b.error_blocks), int(b.total_blocks)) != (e // 3, n // 3) or not close(float(b.compute()), e // 3, n // 3):
                     res.viol("bler", f"n={n},e={e}", "count", f"block counters ({int(b.error_blocks)}, {int(b.total_blocks)}) for {e // 3} bad blocks of {n // 3}")
-    res.sample({"pairs": top * (top + 3) // 2})
+    # counts beyond single-precision integer range: 2^24+3 bits, all / one / none differing, one update and two updates (a count kept in
+    # float32 stops at 2^24)
+    N = (1 << 24) + 3
+    x = torch.zeros(1, N)
+    for e, y in ((N, torch.ones(1, N)), (1, None), (0, torch.zeros(1, N))):
+        if y is None:
+            y = torch.zeros(1, N)
+            y[0, N - 2] = 1.0
+        for cls, bs, cnt in ((BitErrorRate, None, "ber"), (BlockErrorRate, 1, "bler")):
+            m = cls() if bs is None else cls(block_size=bs)
+            f = float(m.forward(x, y))
+            m.update(x, y)
+            m.update(x, y)
+            got = counters(m, cnt)
+            res.ev(2, nontrivial=2 if e else 0, transitions=3)
+            if got != (2 * e, 2 * N) or abs(f - e / N) > 2 ** -22 * max(e / N, 2 ** -30):
+                res.viol(cnt, f"n={N},e={e}", "count", f"{N} bits with {e} differing: forward {f!r} (exact {e / N!r}), counters after two updates {got}, exact {(2 * e, 2 * N)}")
+    res.sample({"pairs": top * (top + 3) // 2, "long": N})
 
 
 def symbols_case(p, res):
